@@ -661,18 +661,18 @@ def r8_context_covers_iteration(prog, rep: Report, pf: PoolFacts):
             f = prog.method_view(c, name) or f
             from ..flow import Flow as _Flow
             vflow = _Flow(f.node)
-            withs = [w for w in ast.walk(f.node) if isinstance(w, ast.With)]
-            for w in withs:
+            from .poolfam import helper_thread_scopes
+            for ctor_, w_body, w in helper_thread_scopes(f, vflow):
                 # delegated generator calls inside the block
                 sc = Scope(prog, f, c)
                 gens = []
-                for call in [x for st in w.body for x in ast.walk(st) if isinstance(x, ast.Call)]:
+                for call in [x for st in w_body for x in ast.walk(st) if isinstance(x, ast.Call)]:
                     tgt = sc.resolve_call(call)
                     if isinstance(tgt, Func) and tgt.is_generator:
                         gens.append(call)
                 # results = super().imap(data, chunk_size)  before the block (a generator object: nothing runs yet), and the name
                 # iterated / returned inside it
-                for nm in [x for st in w.body for x in ast.walk(st) if isinstance(x, ast.Name) and isinstance(x.ctx, ast.Load)]:
+                for nm in [x for st in w_body for x in ast.walk(st) if isinstance(x, ast.Name) and isinstance(x.ctx, ast.Load)]:
                     if isinstance(getattr(nm, "_parent", None), (ast.YieldFrom, ast.For, ast.Return)):
                         bound = vflow.expand(nm)
                         if isinstance(bound, ast.Call):
@@ -683,7 +683,7 @@ def r8_context_covers_iteration(prog, rep: Report, pf: PoolFacts):
                     # a delegate handed in as a parameter (`yield from plain_call(data, chunk_size)` in a shared helper): its
                     # generator is consumed by the yield from just the same
                     params_ = set(f.params)
-                    gens = [y.value for st in w.body for y in ast.walk(st) if isinstance(y, ast.YieldFrom) and isinstance(y.value, ast.Call)
+                    gens = [y.value for st in w_body for y in ast.walk(st) if isinstance(y, ast.YieldFrom) and isinstance(y.value, ast.Call)
                             and isinstance(y.value.func, ast.Name) and y.value.func.id in params_]
                 if not gens:
                     continue
@@ -695,7 +695,7 @@ def r8_context_covers_iteration(prog, rep: Report, pf: PoolFacts):
                 role = f"context-covers:{c.name}.{name}"
                 if escaped:
                     rep.viol("C02.R8", f, role, f"`return {src(escaped[0])}` hands the delegate's generator out of the `with "
-                             f"{src(w.items[0].context_expr)[:50]}` block: the block is left (the helper thread stopped) before any element is "
+                             f"{src(ctor_)[:50]}` block: the block is left (the helper thread stopped) before any element is "
                              "produced",
                              scenario="FactoryFunctorPool with a finite max_chunks_per_worker: workers retire, nobody replaces them, the "
                                       "remaining chunks are never processed and the consumer polls forever", line=escaped[0].lineno)
